@@ -209,12 +209,26 @@ def r12_4(repo: Repo) -> RuleResult:
     return nested_offsets(repo, "R12.4")
 
 
-RULES = [r12_1, r12_2, r12_3, r12_4]
+def r12_5(repo: Repo) -> RuleResult:
+    """HistogramVectorizer: when counts are taken through the integer codes of pd.cut, the code -1 (value in no bin) used
+    as a position lands in the last bin - of the same row, or, with flat positions row * n_bins + code, of the previous
+    row.  The clause is C20's R20.2 counting clause; for C12 it is the only way one row's values can reach another row."""
+    from .c20 import r20_2
+
+    rr = r20_2(repo)
+    rr.rule, rr.title, rr.floor = "R12.5", "histogram counts taken through bin codes exclude the no-bin code -1 (no value reaches a neighbouring row)", 1
+    rr.instances = [i for i in rr.instances if i.construct == "counting"]
+    for i in rr.instances:
+        i.rule = "R12.5"
+    return rr
+
+
+RULES = [r12_1, r12_2, r12_3, r12_4, r12_5]
 CLAIM = (
     "R12.1 loop-carried dependence analysis (upward-exposed locals + outside objects mutated inside, with callee effect "
     "summaries) over every row / block / chunk loop of the row-wise transforms and the kernel row loops in the table: the only "
     "cross-iteration channels are append-only accumulators, stores indexed by the induction variable and position cursors; "
     "R12.2 prange bodies write only at positions indexed by the induction variable; R12.3 batch-axis reductions feeding loop "
-    "control are confined to the reviewed table (Sinkhorn batch stopping test); R12.4 a chunk loop nested in a block loop addresses the whole input absolutely (block start + j * B) or the block itself relatively - never the whole input with block-relative positions."
+    "control are confined to the reviewed table (Sinkhorn batch stopping test); R12.4 a chunk loop nested in a block loop addresses the whole input absolutely (block start + j * B) or the block itself relatively - never the whole input with block-relative positions; R12.5 histogram counts taken through pd.cut codes exclude the no-bin code -1."
 )
 NOT_DECIDED = "value-level equality of concatenated vs separate transforms (follows from independence for everything but the reviewed Sinkhorn coupling, which is bounded by its tolerance, not decided here)."
